@@ -353,4 +353,80 @@ def matchRow {τ : Type} (r : RowIn α τ) : Option (RowOut α) :=
 
 end row
 
+
+/-! ## the whole stage: the rows of one rank's slice and the tables they read (match.py:49-62, 64-229)
+
+`matchFile` is the stage as a map over the rows (what the property needs: row `i` is a function of its own line of
+all_equations / matches / inv_subs and of ONE row of the unique functions' tables).  `matchLoop` is the loop as written: the tables
+(`negloglike`, `params_meas`, `all_fish`) are threaded through the iterations, and whether an iteration can change them is the
+regenerated alias fact `ESR.Gen.Match.snapTargetsFresh` (every array written in place inside the loop body is a fresh, row-local
+array on every path).  When it is false the snapped parameters of a row land in the tables (`spill`, a parameter: whatever the
+write does) and later rows of the same rank read them. -/
+
+/-- row `index` of negloglike_comp<n>.dat (likelihood, parameters) and of derivs_comp<n>.dat -/
+structure URow (α : Type) where
+  nll : α
+  params : List α
+  fish : List α
+  deriving Repr
+
+/-- one line of all_equations_<n>.txt with its line of matches_<n>.txt and inv_subs_<n>.txt (`φ` = the function string) -/
+structure FnIn (τ φ : Type) where
+  fn : φ
+  index : Nat
+  nparams : Nat
+  chain : Chain τ
+
+/-- what the model takes as inputs, as pure functions of the row's own data: `simplifier.convert_params(measured, fish_measured,
+chain)` followed by match.py:96-98, `run_sympify`/`lambdify` success, and the likelihood of the variant at given parameters -/
+structure Calc (α τ φ : Type) where
+  conv : List α → List α → Chain τ → Conv α
+  symOk : φ → Bool
+  nllAt : φ → List α → α
+
+section stage
+variable {α τ φ : Type} [Num α]
+
+/-- match.py:68-88,95: what row `f` reads.  `none` = `matches_proc[i]` is not a row of the tables (IndexError). -/
+def rowIn (C : Calc α τ φ) (maxParam : Nat) (U : List (URow α)) (f : FnIn τ φ) : Option (RowIn α τ) :=
+  match U[f.index]? with
+  | none => none
+  | some u =>
+    let conv := C.conv (u.params.take f.nparams) u.fish f.chain
+    some { nllU := u.nll, nparams := f.nparams, maxParam := maxParam, chain := f.chain, conv := conv, symOk := C.symOk f.fn,
+           reval := fun m => match conv with
+             | .ok p _ => C.nllAt f.fn (zeroWhere m p)
+             | .raised => Num.nan }
+
+/-- one row of the stage as a function of the tables and the row's own line -/
+def matchOne (C : Calc α τ φ) (maxParam : Nat) (U : List (URow α)) (f : FnIn τ φ) : Option (RowOut α) :=
+  (rowIn C maxParam U f).bind matchRow
+
+/-- the stage as a map over the rows -/
+def matchFile (C : Calc α τ φ) (maxParam : Nat) (U : List (URow α)) (fs : List (FnIn τ φ)) : List (Option (RowOut α)) :=
+  fs.map (matchOne C maxParam U)
+
+/-- the loop as written: tables threaded through the iterations; `fresh = false` lets a row write into them -/
+def matchLoop (fresh : Bool) (spill : List (URow α) → FnIn τ φ → Option (RowOut α) → List (URow α))
+    (C : Calc α τ φ) (maxParam : Nat) : List (URow α) → List (FnIn τ φ) → List (Option (RowOut α))
+  | _, [] => []
+  | U, f :: fs =>
+    let o := matchOne C maxParam U f
+    o :: matchLoop fresh spill C maxParam (if fresh then U else spill U f o) fs
+
+/-- the stage with the alias fact regenerated from the current source -/
+def matchStage (spill : List (URow α) → FnIn τ φ → Option (RowOut α) → List (URow α))
+    (C : Calc α τ φ) (maxParam : Nat) (U : List (URow α)) (fs : List (FnIn τ φ)) : List (Option (RowOut α)) :=
+  matchLoop ESR.Gen.Match.snapTargetsFresh spill C maxParam U fs
+
+/-- what C05d's view does: `p[Nsteps<1] = 0.` through `p = params_meas[index,:nparams]` leaves the row's reported (snapped)
+parameters in the unique function's row of `params_meas` -/
+def spillSnapped (U : List (URow α)) (f : FnIn τ φ) (o : Option (RowOut α)) : List (URow α) :=
+  match o, U[f.index]? with
+  | some out, some u =>
+    if f.chain.isEmpty then U.set f.index { u with params := out.params.take f.nparams ++ u.params.drop f.nparams } else U
+  | _, _ => U
+
+end stage
+
 end ESR.Match
